@@ -69,12 +69,15 @@ def eval_case(ctx, case):
     for label, e in case["muts"]:
         t = ops.edit(t, e)
     hopt = case.get("h")
-    res, post = ops.run_cmd(ctx, t, ["verify", {"root": "", "dh": True, "h": hopt}], sub.NOW0 + 500)
+    res, post = ops.run_cmd(ctx, t, ["verify", {"root": "", "dh": True, "h": hopt, "spell": case.get("spell")}], sub.NOW0 + 500)
     v = []
     kind_of_base = ("n-generation" if case["name"].startswith("n-generation") else "nested" if case["name"].startswith("nested")
                     else "flat-no-subdirs" if case["name"] == "flat-no-subdirs" else "plain")
     sig = {"base": kind_of_base, "mutated": bool(case["muts"]), "where": depth_class(case["muts"]), "h": hopt is not None}
-    desc = f"{case['name']} + {[m[0] for m in case['muts']]} -> verify -dh" + (f" -h {hopt}" if hopt else "")
+    if case.get("spell"):
+        sig["root_spelled"] = case["spell"]
+    desc = f"{case['name']} + {[m[0] for m in case['muts']]} -> verify -dh" + (f" -h {hopt}" if hopt else "") + \
+        (f" (root spelled '{case['spell']}')" if case.get("spell") else "")
     if res.exc is not None or res.exit not in (0, 12):
         v.append(Viol(PROP, "abort", dict(sig, exc=(res.exc or "").split(":")[0], where_tb=res.tb[-1][1] if res.tb else None),
                       f"{desc}: exit {res.exit} {res.exc} {res.tb}\n{res.err[-300:]}", case))
@@ -133,6 +136,9 @@ def main(tier, seed):
                 if h is not None and len(ms) > 1:
                     continue
                 cases.append({"name": name, "base": tree, "muts": ms, "has_dirhashes": has, "h": h})
+                if h is None and len(ms) <= 1:   # the root folder as a user may spell it: trailing separator, /., '.' from inside, ./name
+                    for sp in ("slash", "slashdot", "dot", "rel"):
+                        cases.append({"name": name, "base": tree, "muts": ms, "has_dirhashes": has, "h": h, "spell": sp})
     res = eng.pmap(work, cases)
     for case, vs in zip(cases, res):
         eng.add_viols(vs)
